@@ -310,3 +310,29 @@ def gen_catch(rnd):
         steps.append(handler("h1", [rnd.choice(["w1", "w2"])], rnd.randint(1, 2)))
         steps.append(handler("hw", None, rnd.randint(1, 2)))
     return {"family": "catch", "steps": steps, "timeout": None, "externals": [], "meta": {"layout": layout, "n": n}}
+
+
+# ---------------------------------------------------------------- collect family (C09)
+def gen_collect(rnd):
+    shape = rnd.choice([["EvA", "EvB"], ["EvA", "EvB"], ["EvA", "EvA", "EvB"], ["EvA", "EvB", "EvC"], ["EvA", "EvB", "EvB"]])
+    rounds = rnd.randint(1, 3)
+    groups = rnd.choice([1, 1, 2])
+    evs = []
+    for g in range(groups):
+        for _ in range(rounds):
+            for t in shape:
+                evs.append((t, g))
+    rnd.shuffle(evs)
+    nw = rnd.randint(1, 4)
+    lats = [0, 0, 0.5, 1, 1, 2] if rnd.random() < 0.5 else [0, 1]
+    sends = []
+    for t, g in evs:
+        sends.append({"k": "send", "type": t, "items": [{"g": g, "lat": [rnd.choice(lats)], "lat2": [rnd.choice(lats)]}], "gap": rnd.choice([None, None, 0, 0.5, 1])})
+    steps = [
+        {"name": "start", "in": ["Go"], "nw": 1, "acts": sends + [{"k": "ret", "type": None}], "declare": sorted(set(shape))},
+        {"name": "gather", "in": sorted(set(shape)), "nw": nw,
+         "acts": [{"k": "sleep", "d": {"from": "lat"}}, {"k": "collect", "types": shape, "buf_from": "g"}, {"k": "sleep", "d": {"from": "lat2"}},
+                  {"k": "ret", "type": "EvF"}]},
+        {"name": "sink", "in": ["EvF"], "nw": 1, "acts": [{"k": "collect", "types": ["EvF"] * (rounds * groups)}, {"k": "ret", "type": "StopEvent", "result": "collected"}]},
+    ]
+    return {"family": "collect", "steps": steps, "timeout": 60.0, "externals": [], "meta": {"shape": shape, "rounds": rounds, "groups": groups, "nw": nw, "n_events": len(evs)}}
